@@ -2,89 +2,25 @@
 
    An application is a tree: a leaf (a view: what it sees of the request -> the response
    recipe of Resp/Model.v it answers with), a Router (C08), a Subpaths mount table (C09)
-   or a Hosts table (C09, over an oracle for Pattern.fullmatch).  [run_wsgi] is put
+   a Hosts table (C09, over an oracle for Pattern.fullmatch), or a static leaf: Files / Pages
+   with their configuration, on a file system (C04/Static.v).  [run_wsgi] is put
    together from the WSGI model functions of those properties (C08 wsgi_router, C09
    dispatch WSGI / hosts_wsgi, the environ lookup of HTTP_HOST, C04 wsgi_headers,
    wsgi_response), [run_asgi] from the ASGI ones (asgi_router, dispatch ASGI / hosts_asgi
    with its header loop, asgi_headers, asgi_response).  Nothing is shared between the two
    except the tree, the abstract request and the type of the state that is threaded through
    (root path, path, path parameters: SCRIPT_NAME / PATH_INFO / PATH_PARAMS of the environ,
-   root_path / path / path_params of the scope).  No proofs here.
+   root_path / path / path_params of the scope).  The request, the state and the observations
+   are in C04/Req.v.  No proofs here.
 
    baize/wsgi/routing.py, baize/asgi/routing.py: Router.__call__, Subpaths.__call__,
    Hosts.__call__. *)
 From Coq Require Import List NArith Bool Arith.
 From Baize Require Import Lib.Wire Lib.Order C02.Model Resp.Model C04.Model.
-From Baize Require C08.Model C09.Model.
+From Baize Require Export C04.Req C04.Static.
+From Baize Require C07.Model C08.Model C09.Model.
 Import ListNotations.
 
-
-(* ---------- the abstract request ---------- *)
-
-(* method, headers (Host among them), ... of C04.Model.request, plus where it is aimed *)
-Record areq := {
-  aq_request : request;
-  aq_root : bytes;           (* SCRIPT_NAME / root_path as the gateway presents it *)
-  aq_path : bytes            (* PATH_INFO / path *)
-}.
-
-(* what changes while the request travels down the tree *)
-Record state := { s_req : C09.Model.req; s_params : option C08.Model.params }.
-
-Definition init (rq : areq) : state :=
-  {| s_req := C09.Model.mkReq (Some (aq_root rq)) (Some (aq_path rq)) false; s_params := None |}.
-
-(* what a view can read of the request *)
-Record seen := {
-  sn_method : bytes;
-  sn_root : bytes;
-  sn_path : bytes;
-  sn_params : option C08.Model.params;
-  sn_headers : hstore
-}.
-
-(* request.method, request.get("SCRIPT_NAME", ""), request.get("PATH_INFO", ""),
-   request.get("PATH_PARAMS"), request.headers of baize.wsgi.Request(environ) *)
-Definition wsgi_seen (rq : areq) (s : state) : seen :=
-  {| sn_method := rq_method (aq_request rq);
-     sn_root := C09.Model.get (C09.Model.root (s_req s));
-     sn_path := C09.Model.get (C09.Model.path (s_req s));
-     sn_params := s_params s;
-     sn_headers := wsgi_headers (environ_headers (aq_request rq)) |}.
-
-(* request.method, request.get("root_path", ""), request.get("path", ""),
-   request.get("path_params"), request.headers of baize.asgi.Request(scope) *)
-Definition asgi_seen (rq : areq) (s : state) : seen :=
-  {| sn_method := rq_method (aq_request rq);
-     sn_root := C09.Model.get (C09.Model.root (s_req s));
-     sn_path := C09.Model.get (C09.Model.path (s_req s));
-     sn_params := s_params s;
-     sn_headers := asgi_headers (scope_headers (aq_request rq)) |}.
-
-(* the environ is a dict the gateway fills by assignment: the last one stays *)
-Definition env_get (k : bytes) (env : list header) : option bytes :=
-  fold_left (fun acc kv => if bytes_eqb (fst kv) k then Some (snd kv) else acc) env None.
-
-(* ---------- what a client observes ---------- *)
-
-Inductive obs :=
-| OResp (status : nat) (headers : list header) (body : bytes)
-| ONoStart                        (* the application returned without starting a response *)
-| ORaised (e : C09.Model.err)             (* KeyError / RuntimeError of an ASGI router on a scope it rejects *)
-| OStuck.                         (* a dispatcher named an entry its table does not have *)
-
-Definition obs_of (o : option (nat * list header * bytes)) : obs :=
-  match o with
-  | Some (st, hs, body) => OResp st hs body
-  | None => ONoStart
-  end.
-
-Definition bare (status : nat) : base := {| b_status := status; b_headers := []; b_cookies := [] |}.
-
-(* Response(404) *)
-Definition r404 : recipe := RPlain (bare 404).
-(* PlainTextResponse(b"Invalid host", 404) *)
-Definition r_invalid_host : recipe := RSmall (bare 404) (lit "Invalid host") (lit "text/plain") (lit "utf-8").
 
 (* ---------- the tree ---------- *)
 
@@ -95,7 +31,18 @@ Section Apps.
   | Leaf (view : seen -> recipe)
   | Route (routes : list (list C08.Model.seg * app))   (* Router((path, app), ...), paths compiled *)
   | Mount (routes : list (bytes * app))        (* Subpaths((prefix, app), ...) *)
-  | HostSwitch (table : list (P * app)).       (* Hosts((pattern, app), ...) *)
+  | HostSwitch (table : list (P * app))        (* Hosts((pattern, app), ...) *)
+  | StaticLeaf (k : C07.Model.kind) (c : scfg) (e : senv).   (* Files(directory, ...) / Pages(directory, ...) on a file system *)
+
+  (* does the tree contain Files / Pages? *)
+  Fixpoint has_static (a : app) : bool :=
+    match a with
+    | Leaf _ => false
+    | Route routes => existsb (fun e => has_static (snd e)) routes
+    | Mount routes => existsb (fun e => has_static (snd e)) routes
+    | HostSwitch table => existsb (fun e => has_static (snd e)) table
+    | StaticLeaf _ _ _ => true
+    end.
 
   (* the table of a dispatcher with entry k's application replaced by the name k *)
   Fixpoint index_from {K A B : Type} (name : nat -> B) (k : nat) (l : list (K * A)) : list (K * B) :=
@@ -138,6 +85,7 @@ Section Apps.
         | C09.Model.HNotFound => obs_of (wsgi_response r_invalid_host)
         | C09.Model.HRaised e => ORaised e
         end
+    | StaticLeaf k c e => static_wsgi k c e rq s
     end.
 
   Fixpoint run_asgi (a : app) (s : state) : obs :=
@@ -170,6 +118,7 @@ Section Apps.
         | C09.Model.HNotFound => obs_of (asgi_response r_invalid_host)
         | C09.Model.HRaised e => ORaised e
         end
+    | StaticLeaf k c e => static_asgi k c e rq s
     end.
 
   (* the gateway calls the application with the request as it arrived *)
